@@ -218,7 +218,7 @@ func c01r3(r *R) {
 				want = append(want, "-ja3.greaseValues["+form.e+"]")
 			}
 			if form.kind == "loop" {
-				want = append(want, "+("+rngIdx+" < builtin.len(p0."+l.Field+"[:(builtin.len(p0."+l.Field+") - 1)]))", "+(1 < builtin.len(p0."+l.Field+"))")
+				want = append(want, "+("+rngIdx+" < (builtin.len(p0."+l.Field+") - 1))", "+(1 < builtin.len(p0."+l.Field+"))")
 			} else {
 				want = append(want, "+((builtin.len(p0."+l.Field+") - 1) != -1)")
 			}
